@@ -116,7 +116,7 @@ CLAIMED = {
             "CL-C / PS pairing equations are equivalent to the G1 equations the specification decides. Class C: the verdicts of the C "
             "verifiers — compared on ~13000 lines per run: every scheme on every selectable curve, keys from key generation, all message "
             "length classes, both modes, every alteration class of the quantifier, malformed keys and components. PARTIAL: MPSS/MPSB, "
-            "CMLHS, MKLHS are not covered; thirteen findings (C05-1 … C05-13) are carried as known findings with repro lines and patches: "
+            "CMLHS, MKLHS are not covered. Thirteen defects found by the check (C05-1 … C05-13) are repaired in /repo (fixed: lines): "
             "identity public keys accepted (ECDSA, EC-Schnorr, BB, ZSS, PS), RSA sig+N / wrong-length / PSS top bit / 8k+1-bit moduli / "
             "pre-hashed length, ETRS forgery without a key, missing scalar range checks, vBNN and BASIC-padding stack overflows, PoK/SoK "
             "verifiers returning RLC_ERR = 1 on internal errors.",
